@@ -19,6 +19,10 @@ PROPS = {
     'C18': dict(kind='pool', files=POOL_BASE + ['PoolFrame.v', 'C18.v'], quick=300, thorough=4000),
 }
 
+# further properties are configured by one JSON file each in tools/props.d/ (same keys)
+for _f in sorted(glob.glob(os.path.join(os.path.dirname(os.path.abspath(__file__)), 'props.d', '*.json'))):
+    PROPS.update(json.load(open(_f)))
+
 TRUSTED_COMMON = [
     "Coq 8.16.1 kernel (coqc); vm_compute is used to evaluate the model on the generated cases; native_compute is not used",
     "tools/genparams.py (translator of the numeric constants and tables of /repo into coq/Params.v)",
@@ -62,6 +66,14 @@ def model_view(drv, pid, outdir, shard_file, local_case, step):
     """ask Coq what the model computes for one case up to a step (for replay files / explain)"""
     src = open(os.path.join(outdir, shard_file)).read()
     src = src.split('Definition M :=')[0]
+    meta = json.load(open(os.path.join(outdir, 'cases.json')))
+    if meta.get('explain_template'):
+        # the generator says how to ask the model about one case: {case} and {step} are filled in
+        src += meta['explain_template'].replace('{case}', str(local_case)).replace('{step}', str(step))
+        p = os.path.join(outdir, 'explain_tmp.v')
+        open(p, 'w').write(src)
+        rc, out = drv.run(['timeout', '600', 'coqc', '-R', drv.COQ, 'Verif', p], cwd=outdir)
+        return out
     if PROPS[pid]['kind'] == 'collate':
         src += ("Definition the_case := nth %d cases {| cc_max := 0; cc_calls := [] |}.\n"
                 "Definition the_call := nth %d (cc_calls the_case) (CRank VNil VNil None).\n"
@@ -155,9 +167,9 @@ def check(drv, pid, tier, seed):
                             evaluations=meta['cases'], distinct_nontrivial=meta['distinct_nontrivial'], rule=meta['rule'],
                             samples=meta['samples'], steps=meta['steps'],
                             traces_validated_against_impl=meta['cases'],
-                            op_histogram=meta['op_histogram'], outcome_histogram=meta['outcome_histogram'],
-                            type_histogram=meta['type_histogram'], length_histogram=meta['length_histogram'],
-                            hangs=meta['hangs'], mismatching_cases=len(mism),
+                            op_histogram=meta.get('op_histogram'), outcome_histogram=meta.get('outcome_histogram'),
+                            type_histogram=meta.get('type_histogram'), length_histogram=meta.get('length_histogram'), extra=meta.get('extra'),
+                            hangs=meta.get('hangs', 0), mismatching_cases=len(mism),
                             params=info.get('genparams'), obligations_files=cfg['files'],
                             timings=dict(build_s=info.get('coq_make_s'), go_build_s=info.get('go_build_s'), gen_s=gen_s, coqc_cases_s=coq_s)),
               assumptions=TRUSTED_COMMON, wall_s=round(time.time() - t0, 1), violations=viol)
